@@ -25,7 +25,19 @@ def run(pid, tier, plan, oracle_name, monitors_name=None, assumptions=(), extra_
     budget = float(os.environ.get("VF_BUDGET_S", "0")) or None
     t0 = time.time()
     try:
+        # programs explored at bound 0 (default schedule only) are dispatched in bulk
+        zero = [(prog, opts) for prog, bound, opts in plan if bound == 0]
+        if zero:
+            t1 = time.time()
+            s = pool.run([(prog, [[]], 0, opts) for prog, opts in zero])
+            per_prog.append(dict(program=f"{len(zero)} programs at bound 0 (default schedule)",
+                                 bound_completed=0, executions=s.executions,
+                                 outcome_classes=len(s.classes), verdicts=dict(s.verdicts),
+                                 wall_s=round(time.time() - t1, 1)))
+            total.merge(s)
         for prog, bound, opts in plan:
+            if bound == 0:
+                continue
             t1 = time.time()
             if budget and t1 - t0 > budget:
                 per_prog.append(dict(program=prog["name"], skipped="budget"))
